@@ -17,6 +17,7 @@ import (
 	"sync"
 	"time"
 
+	"github.com/google/martian/v3/h2"
 	"github.com/google/martian/v3/mitm"
 
 	"verif/checks/h1harness"
@@ -65,19 +66,62 @@ func lookupConnect(name string) string {
 }
 
 var caOnce sync.Once
-var mitmCfg *mitm.Config
+var mitmCfg, mitmCfgH2 *mitm.Config
 var caErr error
 
-func mitmConfig() (*mitm.Config, error) {
+// mitmConfig returns the per-process MITM configuration, with HTTP/2 enabled for all hosts if h2on.
+func mitmConfig(h2on bool) (*mitm.Config, error) {
 	caOnce.Do(func() {
 		ca, priv, err := mitm.NewAuthority("c03.proxy", "C03 Authority", time.Hour)
 		if err != nil {
 			caErr = err
 			return
 		}
-		mitmCfg, caErr = mitm.NewConfig(ca, priv)
+		if mitmCfg, caErr = mitm.NewConfig(ca, priv); caErr != nil {
+			return
+		}
+		if mitmCfgH2, caErr = mitm.NewConfig(ca, priv); caErr != nil {
+			return
+		}
+		mitmCfgH2.SetH2Config(&h2.Config{AllowedHostsFilter: func(string) bool { return true }})
 	})
+	if h2on {
+		return mitmCfgH2, caErr
+	}
 	return mitmCfg, caErr
+}
+
+const h2Preface = "PRI * HTTP/2.0\r\n\r\nSM\r\n\r\n"
+
+// upstream dial outcomes of the h2 family. h2.Config.Proxy dials the CONNECT target itself (tls.Dial, not
+// the proxy's dial function), so the target is a real loopback port prepared per scenario.
+var h2DialOutcomes = []string{"refused", "tls_fails_plaintext", "accept_close"}
+
+// h2Target prepares the loopback port the CONNECT names and returns its address and a cleanup function.
+func h2Target(outcome string) (string, func(), error) {
+	l, err := net.Listen("tcp", "127.0.0.1:0")
+	if err != nil {
+		return "", nil, err
+	}
+	addr := l.Addr().String()
+	if outcome == "refused" {
+		l.Close() // nothing listens on the port any more
+		return addr, func() {}, nil
+	}
+	go func() {
+		for {
+			c, err := l.Accept()
+			if err != nil {
+				return
+			}
+			if outcome == "tls_fails_plaintext" {
+				c.SetDeadline(time.Now().Add(5 * time.Second))
+				c.Write([]byte("HTTP/1.1 400 Bad Request\r\nContent-Length: 0\r\n\r\n"))
+			}
+			c.Close()
+		}
+	}()
+	return addr, func() { l.Close() }, nil
 }
 
 func helloConfig(kind string) *tls.Config {
@@ -149,6 +193,16 @@ func mitmScenarios(tier string, add func(Scenario)) {
 		}
 	}
 	// a ClientHello (no SNI) cut at every offset
+	// MITM with HTTP/2 enabled for all hosts: the client negotiates ALPN h2 and sends the preface (complete,
+	// cut at every offset, or garbage) while the proxy's own upstream dial fails in three ways
+	for _, d := range h2DialOutcomes {
+		add(Scenario{Kind: "mitm", Script: "h2_connect", Follow: "h2_preface", Dial: d, K: -1})
+		add(Scenario{Kind: "mitm", Script: "h2_connect", Follow: "h2_garbage", Dial: d, K: -1})
+		add(Scenario{Kind: "mitm", Script: "h2_connect", Follow: "h2_no_bytes", Dial: d, K: -1})
+		for k := 0; k < len(h2Preface); k++ {
+			add(Scenario{Kind: "mitm", Script: "h2_connect", Follow: "h2_preface_truncated", Dial: d, K: k})
+		}
+	}
 	n := helloLen()
 	for _, c := range connectVariants() {
 		if tier != "thorough" && c.name != "origin_form_no_host" {
@@ -179,6 +233,9 @@ func mitmScenarios(tier string, add func(Scenario)) {
 // which kind of continuation followed (coarse, so that one defect yields one or two signatures).
 func mitmClass(s *Scenario) string {
 	v := s.Script
+	if v == "h2_connect" {
+		return "h2_upstream_dial_failure+alpn_h2"
+	}
 	switch {
 	case v == "origin_form_no_host" || v == "origin_form_empty_host" || v == "origin_form_odd_host_9":
 		v = "connect_without_host"
@@ -209,7 +266,7 @@ func runMITMStream(s *Scenario, kind string, quiet time.Duration) *runOut {
 	report := func(sym, detail string) {
 		out.findings = append(out.findings, finding{class, sym, detail})
 	}
-	cfg, err := mitmConfig()
+	cfg, err := mitmConfig(s.Script == "h2_connect")
 	if err != nil {
 		out.findings = append(out.findings, finding{"harness", "ca_failed", err.Error()})
 		return out
@@ -249,6 +306,15 @@ func runMITMStream(s *Scenario, kind string, quiet time.Duration) *runOut {
 		cl.QuietTimeout = quiet
 	}
 	stream := lookupConnect(s.Script)
+	if s.Script == "h2_connect" {
+		target, cleanup, err := h2Target(s.Dial)
+		if err != nil {
+			out.findings = append(out.findings, finding{"harness", "listen_failed", err.Error()})
+			return out
+		}
+		defer cleanup()
+		stream = "CONNECT " + target + " HTTP/1.1\r\nHost: " + target + "\r\n\r\n"
+	}
 	if s.Follow == "connect_prefix" {
 		stream = stream[:s.K]
 	}
@@ -328,6 +394,46 @@ func mitmFollowUp(s *Scenario, cl *h1harness.Client, report func(sym, detail str
 		return first + "," + short(end)
 	}
 	switch s.Follow {
+	case "h2_preface", "h2_garbage", "h2_no_bytes", "h2_preface_truncated":
+		cl.Conn.SetDeadline(time.Now().Add(cl.HangDeadline))
+		tc := tls.Client(cl.Conn, &tls.Config{InsecureSkipVerify: true, NextProtos: []string{"h2"}})
+		if err := tc.Handshake(); err != nil {
+			return "handshake_refused"
+		}
+		if p := tc.ConnectionState().NegotiatedProtocol; p != "h2" {
+			return "alpn=" + p // the scenario did not reach the HTTP/2 path
+		}
+		switch s.Follow {
+		case "h2_preface":
+			tc.Write([]byte(h2Preface + "\x00\x00\x00\x04\x00\x00\x00\x00\x00"))
+		case "h2_garbage":
+			tc.Write([]byte("GET / HTTP/1.1\r\nHost: x\r\n\r\n\x00\xff\xfe not a preface at all"))
+		case "h2_preface_truncated":
+			if s.K > 0 {
+				tc.Write([]byte(h2Preface[:s.K]))
+			}
+		}
+		// Whatever the client sent, the proxy's upstream dial fails. How the client connection ends is not
+		// judged here (HTTP/2 session teardown is C10's subject); it is recorded.
+		_, inMemory := cl.Conn.(*h1harness.MemConn)
+		if !inMemory { // over TCP a stall can only be seen as a quiet period
+			cl.Conn.SetDeadline(time.Now().Add(1500 * time.Millisecond))
+		}
+		buf := make([]byte, 256)
+		end := "eof"
+		for {
+			if _, err := tc.Read(buf); err != nil {
+				switch {
+				case strings.Contains(err.Error(), "stalled"), os.IsTimeout(err) && !inMemory:
+					end = "stalled" // the proxy keeps the client connection open and idle
+				case os.IsTimeout(err):
+					end = "timeout"
+					report("hang", "nothing happens on the intercepted h2 connection within the hang deadline")
+				}
+				break
+			}
+		}
+		return "h2," + end
 	case "hello_sni", "hello_nosni", "hello_tls12_nosni":
 		cl.Conn.SetDeadline(time.Now().Add(cl.HangDeadline))
 		tc := tls.Client(cl.Conn, helloConfig(s.Follow))
